@@ -65,7 +65,9 @@ RAW = {
                 # second mandatory argument must follow without whitespace (allow_pre_space=False on an expression)
                 'N': ['{', '{nopre'],
                 # \X switches comments off for what follows it in the same group (make_after_parsing_state_delta)
-                'X': []},
+                'X': [],
+                # optional marker whose character also starts a longer specials sequence of this context (- vs -- ---)
+                'D': ['t-', '{']},
         envs={'e': dict(args=['[', '{'], body='nodes'), 'q': dict(args=[], body='math'),
               'p': dict(args=['*'], body='nodes')},
         specials={'~': [], '--': [], '---': [], '&': [], '!': ['{']},
@@ -86,6 +88,11 @@ RAW = {
                  unknown_macro=True, unknown_env=True),
     'kdyn2': dict(macros={'m': ['{'], 'z': []}, envs={'e': dict(args=['['], body='nodes')}, specials={'~': []},
                   unknown_macro=True, unknown_env=True),
+    # specials declared in two categories: the short sequences first, the longer ones (which start with a short one) in a
+    # later category -- the longest match wins whatever the category
+    'ksp': dict(macros={'m': ['{'], 'o': ['[', '{'], 'z': []}, envs={'e': dict(args=[], body='nodes')},
+                specials={'~': [], '!': [], '~~': [], '!!': [], '!!!': []}, later=['~~', '!!', '!!!'],
+                unknown_macro=True, unknown_env=True),
     'knounk': dict(
         macros={'m': ['{'], 'o': ['[', '{'], 'z': []},
         envs={'e': dict(args=['[', '{'], body='nodes')},
@@ -108,7 +115,7 @@ def describe(name):
                        for k, v in raw['envs'].items()},
                  specials={k: [parse_argspec(x) for x in v] for k, v in raw['specials'].items()},
                  unknown_macro=raw['unknown_macro'], unknown_env=raw['unknown_env'], untranslatable=[],
-                 sticky=raw.get('sticky', {}))
+                 sticky=raw.get('sticky', {}), later=raw.get('later', []))
     _desc_cache[name] = d
     return d
 
@@ -182,7 +189,11 @@ def build(name, alias_spelling=False):
                  MacroSpec(k, [_real_argspec(a) for a in v])) for k, v in d['macros'].items()],
         environments=[EnvironmentSpec(k, [_real_argspec(a) for a in v['args']],
                                       is_math_mode=(v['body'] == 'math')) for k, v in d['envs'].items()],
-        specials=[SpecialsSpec(k, [_real_argspec(a) for a in v]) for k, v in d['specials'].items()])
+        specials=[SpecialsSpec(k, [_real_argspec(a) for a in v]) for k, v in d['specials'].items()
+                  if k not in d.get('later', [])])
+    if d.get('later'):
+        db.add_context_category('later', specials=[SpecialsSpec(k, [_real_argspec(a) for a in v])
+                                                   for k, v in d['specials'].items() if k in d['later']])
     if d['unknown_macro']:
         db.set_unknown_macro_spec(MacroSpec(''))
     if d['unknown_env']:
